@@ -34,6 +34,17 @@ def _on_alarm(signum, frame):
 signal.signal(signal.SIGALRM, _on_alarm)
 
 
+def sig_known(sig, sigs):
+    """a signature names the false hypotheses of the failing clauses ('a+b' when clauses of two findings fail on one input); it is a known
+    finding when every one of them is listed"""
+    return sig is not None and all(part in sigs for part in sig.split('+'))
+
+
+def reportable(o, sigs):
+    """a failing outcome that is not a hit of a listed known finding"""
+    return (not o.mon_ok) and (o.in_domain or not (o.eq and sig_known(o.sig, sigs)))
+
+
 def load_family(prop):
     if prop not in FAMILY_OF:
         raise MachineryError(f'no check registered for {prop}')
@@ -81,8 +92,9 @@ def decide(prop, fam, outcomes, findings, proof_broken, seed, tier, say):
         clauses = o.failed_clauses()
         if o.in_domain:
             kind = 'violation'
-        elif o.eq and o.sig in sigs:
-            known_hits[o.sig] = known_hits.get(o.sig, 0) + 1
+        elif o.eq and sig_known(o.sig, sigs):
+            for part in o.sig.split('+'):
+                known_hits[part] = known_hits.get(part, 0) + 1
             continue
         else:
             kind = 'violation'
@@ -90,7 +102,7 @@ def decide(prop, fam, outcomes, findings, proof_broken, seed, tier, say):
         if tag in reported:
             continue
         reported.add(tag)
-        small = fam.shrink(prop, o.case, lambda c: not evaluate(fam, prop, [c])[0].mon_ok) if hasattr(fam, 'shrink') else o.case
+        small = fam.shrink(prop, o.case, lambda c: reportable(evaluate(fam, prop, [c])[0], sigs)) if hasattr(fam, 'shrink') else o.case
         so = evaluate(fam, prop, [small])[0]
         stag = (tuple(so.failed_clauses()), so.sig)
         if stag in reported_small or len(lines) >= 6:
@@ -115,11 +127,11 @@ def decide(prop, fam, outcomes, findings, proof_broken, seed, tier, say):
             else:
                 tries.append(fam.random_case(prop, common.case_rng(seed, k, 'search-rand'), tier))
         for o in evaluate(fam, prop, tries):
-            if not o.mon_ok and (o.in_domain or not (o.eq and o.sig in sigs)):
+            if not o.mon_ok and (o.in_domain or not (o.eq and sig_known(o.sig, sigs))):
                 found = o
                 break
         if found is not None:
-            small = fam.shrink(prop, found.case, lambda c: not evaluate(fam, prop, [c])[0].mon_ok) if hasattr(fam, 'shrink') else found.case
+            small = fam.shrink(prop, found.case, lambda c: reportable(evaluate(fam, prop, [c])[0], sigs)) if hasattr(fam, 'shrink') else found.case
             path = common.write_replay(prop, 'violation', {'case': small, 'failed_clauses': found.failed_clauses(),
                                                            'model_agrees': found.eq, 'hypotheses': found.hyp,
                                                            'found_by': 'search after broken correspondence/proof'})
@@ -195,7 +207,7 @@ def run(prop, tier, replay):
     couts = evaluate(fam, prop, [c for _, c in corp])
     sigs = {f['sig'] for f in findings}
     for (path, _), o in zip(corp, couts):
-        if not o.mon_ok and (o.in_domain or not (o.eq and o.sig in sigs)):
+        if not o.mon_ok and (o.in_domain or not (o.eq and sig_known(o.sig, sigs))):
             violations.append(f'VIOLATION property={prop} replay={path}')
     # the generated stream
     n = fam.count(prop, tier)
@@ -208,6 +220,8 @@ def run(prop, tier, replay):
         drift = fingerprint.drift(FAMILY_OF[prop])
     except Exception as e:  # noqa
         drift = {'drift': [], 'pinned': False, 'error': str(e)}
+    if os.environ.get('VERIF_FORCE_DRIFT'):
+        drift = dict(drift, drift=['(forced by VERIF_FORCE_DRIFT)'])
     if drift['drift'] and tier == 'quick':
         n *= 3
         say(f'source drift in {", ".join(drift["drift"])}: quick stream widened to {n} cases')
@@ -219,7 +233,7 @@ def run(prop, tier, replay):
     for k in range(0, len(cases), 100):
         batch = evaluate(fam, prop, cases[k:k + 100])
         outcomes += batch
-        bad = sum(1 for o in outcomes if not o.mon_ok and (o.in_domain or not (o.eq and o.sig in sigs)))
+        bad = sum(1 for o in outcomes if not o.mon_ok and (o.in_domain or not (o.eq and sig_known(o.sig, sigs))))
         if bad and t_first_bad is None:
             t_first_bad = time.time()
         # a failing run need not finish the stream: 40 failing cases, or 3 minutes after the first one, are enough to report
